@@ -8,6 +8,14 @@ par p <entries> <updates> <queries>
              | ERR                               (the update call raised; state unchanged)
 par t <updates> <queries> <tree…>
     -> <stage>|…   stage = <snap>;<snap>;…  (one snapshot per query day) | ERR
+par h <entries> <ops> <queries>               histories over several Parameter objects
+par ht <ops> <queries> <tree…>                histories over several trees
+    ops = <op>;…   op = c<src>                 (object <src>.clone(): a new object, numbered next)
+                      | u<obj>:<upd>           (an update addressed to object <obj>)
+                      | r<obj>                 (read object <obj> at every query day)
+    -> one item per op, joined by `|`: c | u | ERR (refused call) | <stage>
+    in `ht` lines <child> is a child name of a node or <i>.<field> of a scale
+    (field = threshold | rate | amount | average_rate)
 entries  = - | <ord>:<val>,…            in declaration order; val = <token> | null | expected
 updates  = - | <upd>;…                  upd = [<child>:]<form>:<a>:<b|->:<val|null>
            form = period | range | open (accepted) | both | pstop | nostart (refused by the code)
@@ -184,6 +192,81 @@ def updTree (t : PNode String) (c : Call) : Option (Except String (PNode String)
     | _ => none
   | _, _ => none
 
+/-- `scale.brackets[i].children[field].update(…)` -/
+def updBracket (b : Bracket) (field : String) (c : Call) : Option (Except String Bracket) := do
+  let v ← (match c.v with
+    | none => some none
+    | some s => (parseRat? s).map some)
+  let run := fun (l : List (Entry Rat)) => updateCall l c.period c.start c.stop v
+  match field with
+  | "threshold" => pure ((run b.threshold).map fun l => { b with threshold := l })
+  | "rate" => pure ((run b.rate).map fun l => { b with rate := l })
+  | "amount" => pure ((run b.amount).map fun l => { b with amount := l })
+  | "average_rate" => pure ((run b.averageRate).map fun l => { b with averageRate := l })
+  | _ => none
+
+/-- an update addressed to a tree: a parameter child of a node, a bracket field of a scale, or
+    (no child) a parameter itself; `none` = the line is malformed -/
+def updAny (t : PNode String) (c : Call) : Option (Except String (PNode String)) :=
+  match t, c.child with
+  | .node _, some _ => updTree t c
+  | .scale m bs, some addr =>
+    match addr.splitOn "." with
+    | [i, field] => do
+      let i ← i.toNat?
+      let b ← bs[i]?
+      let r ← updBracket b field c
+      pure (r.map fun b' => .scale m (bs.set i b'))
+    | _ => none
+  | .param l, some "-" =>
+    some ((updateCall l c.period c.start c.stop c.v).map .param)
+  | _, _ => none
+
+/-- history operations as they travel on the line -/
+inductive Op where
+  | clone (src : Nat)
+  | upd (obj : Nat) (c : Call)
+  | read (obj : Nat)
+
+def parseOp? (withChild : Bool) (s : String) : Option Op :=
+  match s.toList with
+  | 'c' :: r => (String.ofList r).toNat?.map .clone
+  | 'r' :: r => (String.ofList r).toNat?.map .read
+  | 'u' :: r =>
+    match (String.ofList r).splitOn ":" with
+    | i :: rest => do
+      let i ← i.toNat?
+      let c ← parseCall? withChild (":".intercalate rest)
+      pure (.upd i c)
+    | [] => none
+  | _ => none
+
+def parseOps? (withChild : Bool) (s : String) : Option (List Op) :=
+  allSome ((s.splitOn ";").map (parseOp? withChild))
+
+/-- run a history with the model's `runOp`; `apply` = one update call on one object
+    (`none` = malformed, `.error` = the call is refused), `stage` = what a read prints -/
+def runHist {σ : Type} (apply : σ → Call → Option (Except String σ)) (stage : σ → String)
+    (st : List σ) : List Op → Option (List String)
+  | [] => some []
+  | .clone s :: rest =>
+    if s < st.length then (runHist apply stage (runOp (fun x (_ : Unit) => x) st (.clone s)) rest).map ("c" :: ·)
+    else none
+  | .read i :: rest =>
+    match st[i]? with
+    | some x => (runHist apply stage st rest).map (stage x :: ·)
+    | none => none
+  | .upd i c :: rest =>
+    match st[i]? with
+    | none => none
+    | some x =>
+      match apply x c with
+      | none => none
+      | some (.error _) => (runHist apply stage st rest).map ("ERR" :: ·)
+      | some (.ok _) =>
+        let f := fun (y : σ) (c : Call) => match apply y c with | some (.ok y') => y' | _ => y
+        (runHist apply stage (runOp f st (.upd i c)) rest).map ("u" :: ·)
+
 def runT (t : PNode String) (calls : List Call) (qs : List Int) : Option (List String) :=
   match calls with
   | [] => some []
@@ -206,6 +289,22 @@ def handlePar (args : List String) : String :=
     | some calls, some qs, some (t, []) =>
       match runT t calls qs with
       | some stages => "|".intercalate (stageT t qs :: stages)
+      | none => "BAD"
+    | _, _, _ => "BAD"
+  | ["h", es, ops, qs] =>
+    match parseItems? es, parseOps? false ops, parseQueries? qs with
+    | some its, some ops, some qs =>
+      let apply := fun (l : List (Entry String)) (c : Call) =>
+        some (updateCall l c.period c.start c.stop c.v)
+      match runHist apply (fun l => stageP l qs) [ofData its] ops with
+      | some items => "|".intercalate items
+      | none => "BAD"
+    | _, _, _ => "BAD"
+  | "ht" :: ops :: qs :: toks =>
+    match parseOps? true ops, parseQueries? qs, parseTree? toks with
+    | some ops, some qs, some (t, []) =>
+      match runHist updAny (fun t => stageT t qs) [t] ops with
+      | some items => "|".intercalate items
       | none => "BAD"
     | _, _, _ => "BAD"
   | _ => "BAD"
